@@ -87,7 +87,9 @@ class StrategySpace(Subspace):
         self.footprint = footprint
         self.mode, self.bound, self.seed = mode, bound, seed
         self.vdtype, self.keykind = vdtype, keykind
-        alpha = row_alphabet(G, 1, [gbh.key_can_null(keykind)], C.can_null(vdtype), with_mask)
+        self.kinds = tuple(keykind.split("+"))
+        alpha = row_alphabet(G, len(self.kinds), [gbh.key_can_null(k) for k in self.kinds],
+                             C.can_null(vdtype), with_mask)
         self.ws = W.WordSpace(alpha, lo, hi)
         self.warm_key = f"{mode}-{vdtype}"
 
@@ -141,6 +143,11 @@ class StrategySpace(Subspace):
                         if kc != vc:
                             out.append((f"arrow key chunks={kc} value chunks={vc}",
                                         dict(kchunks=kc, vchunks=vc), A6 if thorough else A3, ()))
+        if mode == "multikey":
+            # several keys: one factorisation task per key (their results must stay in key order),
+            # then the usual per-block tasks
+            for T in (2, 3):
+                out.append((f"T={T}", dict(T=T), RED + ["cumsum", "groups"], ORDER_SENSITIVE))
         if mode == "deep":
             out.append(("T=4", dict(T=4), ["sum", "first", "last_t", "min", "sum_2col"],
                         ("first", "sum_2col")))
@@ -156,7 +163,7 @@ class StrategySpace(Subspace):
         from groupby_lib import GroupBy
 
         res = Result()
-        d = gbh.Data(case["w"], (case.get("keykind", "float"),), case.get("vdtype", "f8"),
+        d = gbh.Data(case["w"], tuple(case.get("keykind", "float").split("+")), case.get("vdtype", "f8"),
                      case["seed"])
         n = d.n
         mref = list(d.ms) if d.ms is not None else None
@@ -378,6 +385,8 @@ def subspaces(tier, seed):
         sp.append(S("chunkwise-i8-A2-n1to3", 2, 1, 3, mode="chunkwise", vdtype="i8", bound=0, seed=seed))
         sp.append(S("chunkwise-M8-A0_2-n1to3", 2, 1, 3, mode="chunkwise", vdtype="M8[ns]",
                     with_mask=False, bound=0, seed=seed))
+        sp.append(S("multikey-float+str-A0_2-n2", 2, 2, 2, mode="multikey", keykind="float+str_obj",
+                    with_mask=False, bound=1, seed=seed))
         # narrow integer / bool values under several threads (their 'no value' filler is not a null)
         for vd in ("i4", "u1", "b"):
             sp.append(S(f"threads-{vd}-A0_2-n2to3", 2, 2, 3, mode="threads", vdtype=vd, with_mask=False,
@@ -403,6 +412,12 @@ def subspaces(tier, seed):
                         seed=seed))
         sp.append(S("chunkwise-strkeys-A2-n1to3", 2, 1, 3, mode="chunkwise", keykind="str_obj",
                     bound=1, seed=seed))
+        sp.append(S("multikey-float+str-A0_2-n2to3", 2, 2, 3, mode="multikey", keykind="float+str_obj",
+                    with_mask=False, bound=2, seed=seed))
+        sp.append(S("multikey-float+str-A2-n2", 2, 2, 2, mode="multikey", keykind="float+str_obj",
+                    bound=2, seed=seed))
+        sp.append(S("multikey-int+float+str-A0_2-n2", 2, 2, 2, mode="multikey", keykind="int+float+str_obj",
+                    with_mask=False, bound=2, seed=seed))
         sp.append(RealScaleSpace("real-scale-float-n1to3", 1, 3,
                                  (999_999, 1_000_000, 1_000_001, 2_000_000, 3_000_000), seed=seed))
         sp.append(RealScaleSpace("real-scale-categorical-n2to3", 2, 3, (1_000_000, 4_000_000),
